@@ -431,7 +431,12 @@ class TAPParser:
                     yield self.Error('unexpected test after late plan')
                     self.found_late_test = True
                 self.num_tests += 1
-                self.last_test = self.last_test + 1 if m.group(2) is None else int(m.group(2))
+                try:
+                    self.last_test = self.last_test + 1 if m.group(2) is None else int(m.group(2))
+                except ValueError:
+                    # int() refuses digit strings longer than sys.get_int_max_str_digits()
+                    yield self.Error('test number too large')
+                    self.last_test += 1
                 self.highest_test = max(self.highest_test, self.last_test)
                 if self.plan and self.last_test > self.plan.num_tests:
                     yield self.Error('test number exceeds maximum specified in test plan')
@@ -445,7 +450,11 @@ class TAPParser:
                 if self.plan:
                     yield self.Error('more than one plan found')
                 else:
-                    num_tests = int(m.group(1))
+                    try:
+                        num_tests = int(m.group(1))
+                    except ValueError:
+                        yield self.Error('plan count too large')
+                        return
                     skipped = num_tests == 0
                     if m.group(2):
                         if m.group(2).upper().startswith('SKIP'):
@@ -471,7 +480,11 @@ class TAPParser:
                 if self.lineno != 1:
                     yield self.Error('version number must be on the first line')
                     return
-                self.version = int(m.group(1))
+                try:
+                    self.version = int(m.group(1))
+                except ValueError:
+                    yield self.Error('version number too large')
+                    return
                 if self.version < 13:
                     yield self.Error('version number should be at least 13')
                 else:
